@@ -123,8 +123,6 @@ type Lab struct {
 	Dir     string
 	urls    map[string]string
 	closers []func()
-	// server-side connection events of the stream transports (socket / websocket handlers)
-	Closed int64
 }
 
 var labSeq int64
